@@ -11,13 +11,15 @@ TIE = "Tie.C01"
 DRIVER = "c01_driver.py"
 SHARD = 40
 THEOREMS = [
-    "C01_provided_within_ledger", "C01_model_is_lower_bound", "C01_I_providedBy_iff",
-    "C01_non_interference", "C01_history_non_interference", "C01_cache_entries_fresh",
+    "C01_provided_within_ledger", "C01_model_is_lower_bound",
+    "C01_I_providedBy_iff", "C01_non_interference",
+    "C01_history_non_interference", "C01_cache_entries_fresh",
     "C01_stale_cache_refuted_without_eviction", "C01_class_instance_no_leak",
-    "C01_noLongerProvides_raises_iff", "C01_closure_is_reachability", "C01_ledger_impl_is_inheritance",
-    "C01_generated_add_interfaces_to_cls_eq_model", "C01_generated_Provides_changed_eq_model",
-    "C01_generated_classImplements_ordered_eq_model", "C01_generated_classImplements_eq_model",
-    "C01_generated_classImplementsOnly_eq_model", "C01_generated_classImplementsFirst_eq_model",
+    "C01_noLongerProvides_raises_iff", "C01_closure_is_reachability",
+    "C01_ledger_impl_is_inheritance", "C01_generated_add_interfaces_to_cls_eq_model",
+    "C01_generated_Provides_changed_eq_model", "C01_generated_classImplements_ordered_eq_model",
+    "C01_generated_classImplements_eq_model", "C01_generated_classImplementsOnly_eq_model",
+    "C01_generated_classImplementsFirst_eq_model", "C01_generated_implementedBy_class_provides_eq_model",
     "C01_generated_Provides_eq_model", "C01_generated_directlyProvidedBy_eq_model",
     "C01_generated_directlyProvides_eq_model", "C01_generated_alsoProvides_eq_model",
     "C01_generated_noLongerProvides_eq_model", "C01_generated_step_eq_model",
@@ -40,10 +42,13 @@ def regenerate(run):
                 "the C01_generated_* theorems of Properties/C01.v are NOT about the current source"
                 % (DECL_PY, type(e).__name__, e)]
 
-RULE = ("histories of 3-30 steps over <= 6 interfaces (random DAG), <= 5 classes (multiple inheritance, created at "
-        "any point, also after declarations on their bases), <= 6 instances (created and dropped at any point), all "
+RULE = ("histories of 3-30 steps over <= 6 interfaces (random DAG), 0-2 metaclasses (possibly derived from each "
+        "other, each implementing 0-2 interfaces), <= 5 classes (multiple inheritance, about half created with or "
+        "inheriting a custom metaclass, created at any point, also after declarations on their bases), <= 6 instances (created and dropped at any point), all "
         "nine declaration calls on classes, instances and class objects; all four query forms + directlyProvidedBy "
-        "for every live instance and class at every step (half of the cases) or at a random subset of steps; "
+        "for every live instance and class at every step (half of the cases) or at a random subset of steps, and at "
+        "60% of the steps the class objects alone are asked first (providedBy(cls), I.providedBy(cls), "
+        "directlyProvidedBy(cls)), before anything computes implementedBy(cls); "
         "about half of the cases embed the stale-cache shape (instance declaration, class narrowing/widening on "
         "the class or on a base, new instance declared with the same arguments); a case is non-trivial when it "
         "contains an instance-level and a class-level declaration; distinct = distinct tag set x size bucket")
@@ -56,7 +61,8 @@ TRUSTED_BASE = ["'interfaces a specification implies = interfaces reachable thro
                 "_normalizeargs, Declaration.__sub__/interfaces(), getattr(ob,'__provides__'), providedBy): hand-written, "
                 "validated by the correspondence"]
 ASSUMPTIONS = ["declaration arguments are interfaces (not Declarations/Implements objects), `Interface` itself is never declared",
-               "metaclass is `type`; no super() objects, no old-style __implemented__, no builtin types"]
+               "metaclasses do not change their declarations during a history; no super() objects, no old-style "
+               "__implemented__, no builtin types"]
 
 CLASS_OPS = ["Implementer", "ImplementerOnly", "ClassImplements", "ClassImplementsOnly", "ClassImplementsFirst"]
 OBJ_OPS = ["DirectlyProvides", "AlsoProvides", "NoLongerProvides", "Provider"]
@@ -67,6 +73,7 @@ class _Sim:
 
     def __init__(self, rng, ni):
         self.rng = rng
+        self.ni = ni
         self.ifaces = []
         for i in range(ni):
             k = rng.choice([0, 0, 1, 1, 1, 2]) if i else 0
@@ -77,6 +84,15 @@ class _Sim:
             for b in bs:
                 s |= self.up[b]
             self.up.append(s)
+        # 0-2 metaclasses, possibly a hierarchy, each implementing 0-2 interfaces
+        self.metas = []
+        self.pym = []
+        for k in range(rng.choice([0, 0, 1, 1, 2, 2])):
+            bases = [0] if k == 1 and rng.random() < 0.5 else []
+            l = [rng.randrange(self.ni) for _ in range(rng.choice([0, 1, 1, 2]))]
+            self.metas.append({"bases": bases, "l": l, "call": bool(l) or rng.random() < 0.5})
+            self.pym.append(type("M", tuple(self.pym[b] for b in bases) or (type,), {}))
+        self.cmeta = []     # effective metaclass id of each class (None = type)
         self.cbases = []
         self.pyc = []
         self.asked = []
@@ -134,30 +150,45 @@ class _Sim:
         return [o for o, l in enumerate(self.live) if l]
 
     # -- ops
+    def mdirect(self, m):
+        """interfaces named directly by implementedBy(metaclass m) (own, then inherited)"""
+        if m is None:
+            return None
+        out = list(self.metas[m]["l"])
+        for b in self.metas[m]["bases"]:
+            out += self.mdirect(b)
+        return out
+
     def new_class(self, bases=None):
         rng = self.rng
         n = len(self.cbases)
-        for _ in range(6):
+        for _ in range(8):
             if bases is None:
                 k = rng.choice([0, 1, 1, 2, 2, 3]) if n else 0
                 bs = rng.sample(range(n), min(k, n))
             else:
                 bs = bases
+            m = rng.randrange(len(self.metas)) if self.metas and rng.random() < 0.55 else None
             try:
-                k = type("K", tuple(self.pyc[b] for b in bs) or (object,), {})
+                pb = tuple(self.pyc[b] for b in bs) or (object,)
+                k = type("K", pb, {}) if m is None else self.pym[m]("K", pb, {})
                 break
             except TypeError:
                 bases = None
         else:
-            bs = []
+            bs, m = [], None
             k = type("K", (object,), {})
         self.pyc.append(k)
+        em = self.pym.index(type(k)) if type(k) in self.pym else None
+        self.cmeta.append(em)
         self.cbases.append(bs)
         self.asked.append([])
         self.inherit.append(True)
-        self.ops.append({"op": "NewClass", "bases": bs})
+        self.ops.append({"op": "NewClass", "bases": bs, "m": m, "md": self.mdirect(em)})
         if len(bs) > 1:
             self.tags.add("multi-inherit")
+        if em is not None:
+            self.tags.add("metaclass" + ("-implements" if self.mdirect(em) else ""))
         if any(self.asked[b] for b in bs):
             self.tags.add("subclass-after-base-declared")
         return n
@@ -210,7 +241,7 @@ class _Sim:
         droppable = [o for o in live if o not in protect]
         if droppable:
             w += ["drop"]
-        w += ["cdecl"] * 6 + ["cobj"] * 2
+        w += ["cdecl"] * 6 + ["cobj"] * (4 if self.metas else 2)
         if live:
             w += ["idecl"] * 9
         k = rng.choice(w)
@@ -241,8 +272,13 @@ class _Sim:
                     self.tags.add("before-after-split")
             self.class_op(kind, c, l)
         elif k == "cobj":
-            c = rng.randrange(nc)
-            self.obj_op(rng.choice(OBJ_OPS), ("c", c), self.ilist())
+            withmeta = [x for x in range(nc) if self.cmeta[x] is not None]
+            c = rng.choice(withmeta) if withmeta and rng.random() < 0.6 else rng.randrange(nc)
+            md = self.mdirect(self.cmeta[c]) or []
+            imp = set()
+            for i in md:
+                imp |= self.up[i]
+            self.obj_op(rng.choice(OBJ_OPS), ("c", c), self.ilist(prefer=imp))
         else:
             o = rng.choice(live)
             self.obj_op(rng.choice(OBJ_OPS + ["DirectlyProvides", "AlsoProvides"]), ("i", o),
@@ -339,9 +375,11 @@ def _gen_case(rng, tier):
     allq = rng.random() < 0.5
     for k, o in enumerate(ops):
         o["q"] = bool(allq or k == len(ops) - 1 or rng.random() < 0.45)
+        # the class objects alone, before anything at this step computes implementedBy(cls)
+        o["qp"] = bool(rng.random() < 0.6)
     if not allq:
         sim.tags.add("sparse-queries")
-    return {"ifaces": sim.ifaces, "ops": ops, "tags": sorted(sim.tags)}
+    return {"ifaces": sim.ifaces, "metas": sim.metas, "ops": ops, "tags": sorted(sim.tags)}
 
 
 WITNESS = {  # the 5-op history of the fixed finding F1 (with creations spelled out)
@@ -373,7 +411,8 @@ def _t(t):
 def _op(o):
     k = o["op"]
     if k == "NewClass":
-        return "(NewClass %s)" % _l(o["bases"])
+        md = o.get("md")
+        return "(NewClass %s %s)" % (_l(o["bases"]), "None" if md is None else "(Some %s)" % _l(md))
     if k == "NewInstance":
         return "(NewInstance %d)" % o["c"]
     if k == "DropInstance":
@@ -395,12 +434,19 @@ def _q(q):
     return "(Some (%s, %s))" % (inst, cls)
 
 
+def _cp(cp):
+    if cp is None:
+        return "None"
+    return "(Some %s)" % C.clist(["(%d, %d, %d, %s)" % (a[0], a[1], a[2], _l(a[3])) for a in cp])
+
+
 def coq_case(case, obs, mode):
     steps = obs.get("steps", [])
     ops = case["ops"]
     if len(steps) != len(ops):   # the driver lost the case: make both checks fail
-        steps = [{"exc": 2, "q": None} for _ in ops]
-    body = C.clist(["(%s, (%d, %s))" % (_op(o), s["exc"], _q(s["q"])) for o, s in zip(ops, steps)])
+        steps = [{"exc": 2, "q": None, "cp": None} for _ in ops]
+    body = C.clist(["(%s, (%d, %s, %s))" % (_op(o), s["exc"], _q(s["q"]), _cp(s.get("cp")))
+                    for o, s in zip(ops, steps)])
     g = C.clist([_l(b) for b in case["ifaces"]])
     return "(%s, %s)" % (g, body)
 
@@ -425,7 +471,8 @@ def _py_op(o):
     I = lambda l: ", ".join("I%d" % i for i in l)
     T = lambda t: ("o%d" if t[0] == "i" else "C%d") % t[1]
     if k == "NewClass":
-        return "C%%d = type('C%%d', (%s), {})" % ("".join("C%d, " % b for b in o["bases"]) or "object,")
+        return "C%%d = %s('C%%d', (%s), {})" % ("type" if o.get("m") is None else "M%d" % o["m"],
+                                                "".join("C%d, " % b for b in o["bases"]) or "object,")
     if k == "NewInstance":
         return "o%%d = C%d()" % o["c"]
     if k == "DropInstance":
@@ -450,6 +497,10 @@ def replay_text(case, obs, mode):
              "from zope.interface import *", "from zope.interface.interface import InterfaceClass"]
     for i, bs in enumerate(case["ifaces"]):
         lines.append("I%d = InterfaceClass('I%d', (%s), {})" % (i, i, "".join("I%d, " % b for b in bs) or "Interface,"))
+    for k, m in enumerate(case.get("metas", [])):
+        lines.append("M%d = type('M%d', (%s), {})" % (k, k, "".join("M%d, " % b for b in m["bases"]) or "type,"))
+        if m.get("call", True):
+            lines.append("implementer(%s)(M%d)" % (", ".join("I%d" % i for i in m["l"]), k))
     nc = no = 0
     steps = obs.get("steps", [])
     for k, o in enumerate(case["ops"]):
@@ -463,6 +514,8 @@ def replay_text(case, obs, mode):
         if k < len(steps):
             st = steps[k]
             s += "    # step %d" % k + (" raised %s" % st.get("excname") if st["exc"] else "")
+            if st.get("cp") is not None:
+                s += "  class objects first [c, providedBy(C), I.providedBy(C), directlyProvidedBy(C)]=%s;" % json.dumps(st["cp"])
             if st["q"] is not None:
                 s += "  observed inst[o, providedBy, I.providedBy, directlyProvidedBy]=%s cls[c, implementedBy, I.implementedBy, providedBy(C), I.providedBy(C), directlyProvidedBy(C)]=%s (sets as bit masks)" % (
                     json.dumps(st["q"]["inst"]), json.dumps(st["q"]["cls"]))
@@ -501,6 +554,8 @@ def _remove(ops, k):
         n = sum(1 for x in ops[:k] if x["op"] == "NewClass")
         if any(x["op"] == "NewInstance" and x["c"] == n for x in rest):
             return None
+        if any(x["op"] == "NewClass" and n in x["bases"] for x in rest):
+            return None   # a subclass may inherit its metaclass from this class
         out = []
         for x in rest:
             if x["op"] == "NewClass":
@@ -548,7 +603,7 @@ def shrink(impl, case, mode, rounds=14):
             ops = _remove(cur["ops"], k)
             if ops:
                 ops[-1]["q"] = True
-                cands.append({"ifaces": cur["ifaces"], "ops": ops, "tags": ["shrunk"]})
+                cands.append({"ifaces": cur["ifaces"], "metas": cur.get("metas", []), "ops": ops, "tags": ["shrunk"]})
         if not cands:
             break
         good, obs = _violates(impl, cands, mode)
@@ -588,7 +643,7 @@ TECHNIQUE = ("Coq proof by induction over histories of a Gallina model of declar
              "kernel functions are re-translated from the source text on every run (fail-closed ast translator) and proved "
              "equal to the model; vm_compute correspondence with both implementations and a ledger-sandwich oracle on the "
              "implementation's answers")
-LEVEL_TEXT = ("Machine-checked theorems (Properties/C01.v, 24 theorems, closed under the global context) state for every "
+LEVEL_TEXT = ("Machine-checked theorems (Properties/C01.v, 25 theorems, closed under the global context) state for every "
               "history of the nine declaration calls, class/instance creation and drops that the model's providedBy/"
               "implementedBy answers equal the ledger's lower bound and lie in the admissible sandwich, that declarations "
               "on other instances never matter (history-level non-interference, which needs the cache eviction: refuted for "
